@@ -4,7 +4,10 @@ import (
 	"bytes"
 	"encoding/binary"
 	"encoding/hex"
+	"encoding/json"
 	"fmt"
+	"os"
+	"path/filepath"
 	"strings"
 
 	"github.com/free5gc/nas/security"
@@ -602,6 +605,73 @@ func (e *cryptoEnum) run() {
 		}
 		e.c.Tick()
 	}
+	// pinned rare-branch tuples (ZUC): parameter tuples at which, within the initialisation or the first 48 work-mode
+	// clocks, the integer sum of the LFSR feedback terms needs a second fold (about one clock in 2^30). They were found by
+	// a search on the reference model alone (cmd/vzucsearch, 6 CPU-minutes) and are pinned in spec/zuc_rare_tuples.json:
+	// they depend on the standard, not on the code under test. An implementation that sums wide and folds once is wrong
+	// exactly here, and differently for different requested lengths
+	if e.mine() && e.c.Begin("zuc-rare-tuples", "alg3", "pinned tuples at which the LFSR feedback needs a second fold") {
+		ts := zucRareTuples(e.mac)
+		e.c.Add("zuc_pinned_rare_branch_tuples", int64(len(ts)))
+		if len(ts) == 0 {
+			e.c.Cap("spec/zuc_rare_tuples.json missing or empty: the second-fold branch of ZUC is not exercised")
+		}
+		for _, t := range ts {
+			for _, bits := range []int{8, 64, 104, 128, 256, 512, 1000, 1024, 2048, 2600, 3072} {
+				for _, via := range vias {
+					e.one(3, via, t.key, t.count, t.bearer, t.dir, bits, 2)
+				}
+			}
+		}
+		e.c.Tick()
+	}
+	// model-directed messages (EIA1): the blocks of a message are free, so every intermediate value of the evaluation can
+	// be steered — block j is chosen so that EVAL xor M_j is 0, 1, all ones or the top bit alone (j = 1, 2), or so that
+	// EVAL after the last block equals LENGTH (the operand of the final multiplication is then 0). The values come from
+	// the reference model (P, Q and the running EVAL of the tuple); a shortcut for "zero operands" or a lost reset lives
+	// exactly on such messages
+	if e.mac && e.mine() && e.c.Begin("eia1-directed-messages", "alg1", "messages that steer the accumulator") {
+		for ti, t := range []zucTuple{{key: pubKey1, count: 0x38A6F056, bearer: 0x1F, dir: 0}, {key: pubKey2, count: 0x00000102, bearer: 3, dir: 1}, {key: cryptoKeys()[2], count: 0, bearer: 0, dir: 0}} {
+			p, q := refcrypto.EIA1Operands(t.key, t.count, uint32(t.bearer), uint32(t.dir))
+			_ = q
+			pinv := uint64(1)
+			{ // P^(2^64-2)
+				b := p
+				for i := 1; i < 64; i++ {
+					b = refcrypto.GF64Mul(b, b)
+					pinv = refcrypto.GF64Mul(pinv, b)
+				}
+			}
+			for k := 2; k <= 4; k++ {
+				for j := 1; j < k; j++ {
+					for _, target := range []uint64{0, 1, ^uint64(0), 1 << 63, p} {
+						blocks := make([]uint64, k)
+						eval := uint64(0)
+						for i := 0; i < k; i++ {
+							blocks[i] = 0x1122334455667788*uint64(i+1) ^ uint64(ti)
+							if i == j {
+								blocks[i] = eval ^ target
+							}
+							eval = refcrypto.GF64Mul(eval^blocks[i], p)
+						}
+						e.directedMac(t, blocks)
+					}
+				}
+				// EVAL after the last block equal to LENGTH
+				blocks := make([]uint64, k)
+				eval := uint64(0)
+				for i := 0; i < k; i++ {
+					blocks[i] = 0x0F1E2D3C4B5A6978 * uint64(i+1)
+					if i == k-1 {
+						blocks[i] = eval ^ refcrypto.GF64Mul(uint64(64*k), pinv)
+					}
+					eval = refcrypto.GF64Mul(eval^blocks[i], p)
+				}
+				e.directedMac(t, blocks)
+			}
+		}
+		e.c.Tick()
+	}
 	// history family: the functions must be pure — the same key/COUNT/bearer/direction used repeatedly with
 	// ascending, descending and repeated lengths (a keystream cache or other state carried between calls shows here)
 	for alg := 1; alg <= 3; alg++ {
@@ -785,4 +855,44 @@ func eia1Directed(per int, maxTries int64, tick func()) (out []zucTuple, tries i
 		}
 	}
 	return out, tries
+}
+
+// directedMac runs one integrity case (algorithm 1, both entry points) on a message given as 64-bit blocks.
+func (e *cryptoEnum) directedMac(t zucTuple, blocks []uint64) {
+	payload := make([]byte, 8*len(blocks))
+	for i, b := range blocks {
+		binary.BigEndian.PutUint64(payload[8*i:], b)
+	}
+	for _, via := range []string{"direct", "wrapper"} {
+		in := cryptoCase{Alg: 1, Via: via, Key: hex.EncodeToString(t.key[:]), Count: t.count, Bearer: t.bearer, Dir: t.dir, Bits: 8 * len(payload), Payload: hex.EncodeToString(payload)}
+		e.n++
+		if e.c.Begin("case", "alg1", in) {
+			e.exec(e.c, in)
+		}
+	}
+}
+
+// zucRareTuples loads the pinned tuples of the given mode (ciphering / integrity IV layout).
+func zucRareTuples(mac bool) (out []zucTuple) {
+	b, err := os.ReadFile(filepath.Join(os.Getenv("VERIF_DIR"), "mc", "spec", "zuc_rare_tuples.json"))
+	if err != nil {
+		return nil
+	}
+	var raw []struct {
+		Mac    bool   `json:"integrity"`
+		Key    string `json:"key"`
+		Count  uint32 `json:"count"`
+		Bearer uint8  `json:"bearer"`
+		Dir    uint8  `json:"direction"`
+	}
+	if json.Unmarshal(b, &raw) != nil {
+		return nil
+	}
+	for _, r := range raw {
+		if r.Mac != mac {
+			continue
+		}
+		out = append(out, zucTuple{key: hexKey(r.Key), count: r.Count, bearer: r.Bearer, dir: r.Dir})
+	}
+	return out
 }
